@@ -109,7 +109,7 @@ type World struct {
 
 	mu        sync.Mutex
 	listeners map[string]*TCPListener
-	udp       map[string]*UDPConn
+	udp       map[string][]*UDPConn
 	hosts     map[string][]netip.Addr
 	ephemeral map[netip.Addr]uint16
 	dialCount map[string]int
@@ -145,7 +145,7 @@ func NewWorld(s *sim.Sim) *World {
 	w := &World{
 		S:          s,
 		listeners:  map[string]*TCPListener{},
-		udp:        map[string]*UDPConn{},
+		udp:        map[string][]*UDPConn{},
 		hosts:      map[string][]netip.Addr{},
 		ephemeral:  map[netip.Addr]uint16{},
 		dialCount:  map[string]int{},
